@@ -52,8 +52,13 @@ CLAIM = {
             'while all position bookkeeping stays the real code), sqrt of tap power and of path loss, np.fft.fft '
             '(theorems hold for every kernel; the path-loss clause in the frequency domain assumes the kernel is '
             'homogeneous, checked numerically together with shape and DFT values), the dB round trip of tap powers '
-            '(compared at 1e-12). Partial: the multiuser frequency-domain clause is instantiated for SISO links '
-            '(MIMO links follow from mu_superposition + freq_mimo_spec but are not spelled out); a Python exception '
+            '(compared at 1e-12). The multiuser frequency-domain clause is spelled out for SISO links (mu_freq_siso) and for MIMO '
+            'links (mu_freq_mimo_spec: any number of receivers / transmitters, antenna counts per receiver and per '
+            'transmitter - MuMimoChannel itself only builds equal counts -, both directions, per-link path loss, '
+            'None / index array / slice, per-link fading schedule after any history; mu_freq_mimo_entry reads the '
+            'flat position b*B+q, mu_freq_mimo_pathloss_factor pulls sqrt(pathloss) out of the FFT for a '
+            'homogeneous kernel) and driven on real MuMimoChannel objects (2x1 and 1x2 links, fixed histories every '
+            'run + random ones, branches fd:mu-mimo:*). Partial: a Python exception '
             'ends the modelled history; n = 0 transmissions, fft_size = 0, boolean / 2-D index arrays and unsorted '
             'hand-made profiles are outside model and correspondence; binary64 rounding is outside every theorem. '
             'Robustness classes: R1 (element types of signals, path loss, fft_size, index arrays, profile arrays) and '
@@ -1313,6 +1318,9 @@ def case_features(case):
             if rejected_before and op.get('expect') == 'ok':
                 f.add('R4:continued-after-rejection')
             f.add(('td' if op['op'] == 'tx' else 'fd') + (':switched' if sw else ':direct'))
+            if case['level'] == 'mu' and case['ant'] is not None and op.get('expect', 'ok') == 'ok':
+                # the clause of mu_freq_mimo_spec / mu_corrupt_mimo on the real MuMimoChannel
+                f.add(('td' if op['op'] == 'tx' else 'fd') + ':mu-mimo' + (':switched' if sw else ':direct'))
             if op['op'] == 'fx':
                 f.add('sel:' + op['sel']['kind'])
                 if op['sel']['kind'] == 'slice':
@@ -1509,6 +1517,24 @@ def corpus_cases():
         {'op': 'tx', 'x': [gen_signal(rr, 1, 2) for _ in range(257)]}, {'op': 'ir', 'idx_type': 'uint16'},
         {'op': 'sw', 'v': True}, {'op': 'tx', 'x': [gen_signal(rr, 1, 2)], 'as1d': True}, {'op': 'ir'}])
     out.append(c)
+    # MuMimoChannel in the frequency domain (theorem mu_freq_mimo_spec): K = 2 users, 2x1 and 1x2 links, Jakes and
+    # Rayleigh, None / index array (negative entries) / slices (step not dividing the span, negative step), both
+    # directions, without / with / again without a path-loss matrix - one history of four transmissions per object,
+    # the response of every link read after each
+    for ant in ([2, 1], [1, 2]):
+        for jk in (True, False):
+            rm = core.Rng(20 + 2 * ant[0] + int(jk), 'c03corpus')
+            xt = [gen_signal(rm, ant[1], 8) for _ in range(2)]      # transmitters -> receivers: Nt rows per source
+            xr = [gen_signal(rm, ant[0], 8) for _ in range(2)]      # switched: the receivers send, Nr rows per source
+            c = dict(base, level='mu', nrx=2, ntx=2, ant=list(ant), jakes=jk, seed=11 + ant[0], ops=[
+                {'op': 'fx', 'fft': 4, 'sel': {'kind': 'all'}, 'x': xt}, {'op': 'ir'},
+                {'op': 'pl', 's': [['1/2', '1'], ['1/4', '0']]},
+                {'op': 'fx', 'fft': 8, 'sel': {'kind': 'idx', 'idx': [-3, 0, 5, 2]}, 'x': xt}, {'op': 'ir'},
+                {'op': 'sw', 'v': True},
+                {'op': 'fx', 'fft': 16, 'sel': {'kind': 'slice', 'slice': [0, 10, 3]}, 'x': xr}, {'op': 'ir'},
+                {'op': 'pl', 's': None},
+                {'op': 'fx', 'fft': 8, 'sel': {'kind': 'slice', 'slice': [None, None, -2]}, 'x': xr}, {'op': 'ir'}])
+            out.append(c)
     for c in out:
         c.setdefault('Ts', 1e-3)
     return out
@@ -2509,7 +2535,7 @@ def oracles(ctx, n_tx, n_lin, n_disc):
 # --------------------------------------------------------------------------- entry points
 REQUIRED = ['gen:jakes', 'gen:rayleigh', 'ant:siso', 'ant:mimo-nr!=nt', 'td:direct', 'td:switched', 'fd:direct',
             'fd:switched', 'sel:all', 'sel:idx', 'sel:slice', 'slice:neg-step', 'slice:step-not-dividing-span',
-            'pathloss', 'history>=2', 'level:mu', 'level:su', 'level:tdl', 'disc:colliding-delays',
+            'fd:mu-mimo:direct', 'fd:mu-mimo:switched', 'pathloss', 'history>=2', 'level:mu', 'level:su', 'level:tdl', 'disc:colliding-delays',
             'disc:tie-at-half', 'fft:crop', 'fft:pad', 'oracle:single-stream-1d:switched',
             'oracle:single-stream-1d:direct', 'oracle:single-source-1d',
             'oracle:R5:pl0', 'oracle:R5:pl-matrix-zero', 'oracle:R6:profile-scale', 'oracle:R7:shared-objects',
